@@ -299,6 +299,8 @@ def machines(tier):
         PQMachine([0, 1, 2, 3], [0, 1, 2], "pq-scalar-4x3"),
         PQMachine([0, 1, 2, 3], [(0,), (0, 0), (0, 1), (1, 0)], "pq-tuple-4x4"),
         PQMachine([5, -1, 7], [0, 1, (0, 1), (1,), (1, 0)], "pq-mixed-3x5"),
+        # scores at the ends of the C int range (a comparison by subtraction would wrap around)
+        PQMachine([0, 1, 2, 3], [2_000_000_000, -2_000_000_000, 5, (5, -2_000_000_000), (5, 2_000_000_000)], "pq-extreme-4x5", max_depth=5),
         # deep heaps (three levels below the root): sift-down / sift-up paths through inner nodes
         PQMachine(list(range(7)), [0, 1, 2], "pq-deep-7x3-depth2", prefill=7, max_depth=2, no_push=True),
         PQMachine(list(range(9)), [0, 1, 2], "pq-deep-9x3-depth1", prefill=9, max_depth=1, no_push=True),
